@@ -591,6 +591,9 @@ pub struct HistCfg {
     /// `restore()` through a handle on a branch commits through `checkout_version(read_version)`,
     /// which resolves against main: it is only exercised where that is the subject (C09)
     pub restore_on_branches: bool,
+    /// never ask compaction to defer the index remap (C38: an indexed query through the Session that
+    /// cached the index before such a compaction never completes — liveness, reported separately)
+    pub no_deferred_remap: bool,
 }
 
 impl HistCfg {
@@ -609,6 +612,7 @@ impl HistCfg {
             allow_refs: true,
             cleanup_isolated_only: true,
             restore_on_branches: false,
+            no_deferred_remap: false,
         }
     }
     pub fn describe(&self) -> String {
@@ -907,6 +911,9 @@ impl Hist {
         let before: BTreeMap<Loc, u64> = self.lin.iter().map(|(l, x)| (l.clone(), x.latest())).collect();
         let models_before: BTreeMap<Loc, Model> =
             self.lin.iter().map(|(l, x)| (l.clone(), x.model.clone())).collect();
+        if std::env::var("E_HIST_TRACE").is_ok() {
+            eprintln!("TRACE case {} step {} {} on {:?}", self.case, self.steps.len(), kind.name(), loc.as_ref().map(|l| l.label()));
+        }
         let fut = self.exec(kind, loc.clone(), &mut desc);
         let res = AssertUnwindSafe(fut).catch_unwind().await;
         let (outcome, extra) = match res {
@@ -915,6 +922,9 @@ impl Hist {
                 (Outcome::Panicked(panic_msg(&p)), Extra::None)
             }
         };
+        if std::env::var("E_HIST_TRACE").is_ok() {
+            eprintln!("TRACE   -> {} {}", outcome.label(), desc);
+        }
         let mut rec = StepRec {
             idx: self.steps.len(),
             kind,
@@ -1344,7 +1354,7 @@ impl Hist {
             max_rows_per_group: *self.rng.pick(&[4usize, 1024]),
             materialize_deletions: self.rng.chance(3, 4),
             materialize_deletions_threshold: *self.rng.pick(&[0.0f32, 0.1, 0.5]),
-            defer_index_remap: self.rng.chance(1, 12),
+            defer_index_remap: self.rng.chance(1, 5) && !self.cfg.no_deferred_remap,
             batch_size: *self.rng.pick(&[None, Some(7usize)]),
             ..Default::default()
         }
@@ -1627,10 +1637,17 @@ impl Hist {
             return (Outcome::Skipped, Extra::None);
         }
         let v = *self.rng.pick(&vers);
-        *desc = json!({"name": name, "from": format!("{}:{}", loc.label(), v)});
+        // the parent is named by the (branch, version) reference; the call may go through a handle of
+        // the parent lineage or (1 in 3, when the parent is a branch) through the main handle
+        let cross = loc.branch.is_some() && self.cfg.restore_on_branches && self.rng.chance(1, 3);
+        *desc = json!({"name": name, "from": format!("{}:{}", loc.label(), v), "through_main_handle": cross});
         let sp = self.env.store_params();
+        let via = if cross { Loc::main(&table) } else { loc.clone() };
+        let ds = {
+            let lin = self.lin.get_mut(&via).unwrap();
+            lance_try!(lin.head.create_branch(&name, (loc.branch.clone(), Some(v)), sp).await)
+        };
         let lin = self.lin.get_mut(loc).unwrap();
-        let ds = lance_try!(lin.head.create_branch(&name, (loc.branch.clone(), Some(v)), sp).await);
         let model = lin.models.get(&v).cloned().unwrap_or_default();
         let new = Loc {
             table,
@@ -1655,7 +1672,7 @@ impl Hist {
                 new,
                 parent: loc.clone(),
                 version: v,
-                cross_handle: false,
+                cross_handle: cross,
             },
         )
     }
